@@ -61,7 +61,7 @@ void mon_c06(CaseCtx &c, Rng &rng){
     Obs o = observe(S, oo);
     struct Tw{ const char *name; TasmanianSparseGrid *g; } tw[] = {{"binary-stream", &Sb}, {"ascii-stream", &Sa}, {"binary-file", &Sfb}, {"ascii-file", &Sfa}};
     for(auto &t : tw){
-        std::string df = obs_diff(o, observe(*t.g, oo));
+        std::string df = obs_diff_state(o, observe(*t.g, oo));
         if (!df.empty()){ c.viol(std::string("restore:") + t.name + ":" + df + ":" + cls, J().str("field", df).obj()); return; }
     }
     // re-writing the restored grids reproduces the original bytes, also across formats
